@@ -114,8 +114,9 @@ Definition one_response (c : tcase) (r : response) : bool :=
 (* a server-level panic: nothing was sent *)
 Definition propagated (c : tcase) : bool :=
   o_panicked c && match o_events c with [] => true | _ => false end.
+(* the PROPERTY's handler response (Spec.spec_response): a panic is a panic whatever value it carries *)
 Definition is_handler_response (c : tcase) : bool :=
-  match handler_response (t_recover c) (t_rh0 c) (t_acts c) with
+  match spec_response (t_recover c) (t_rh0 c) (t_acts c) with
   | Some r => one_response c r
   | None => propagated c
   end.
@@ -137,7 +138,7 @@ Fixpoint direct_eff (committed : bool) (acts : list action) : list action * bool
   match acts with
   | [] => ([], false)
   | a :: r =>
-      if match a with PanicA => true | WriteHeader c => negb committed && negb (valid_code_nethttp c) | _ => false end
+      if match a with PanicA _ => true | WriteHeader c => negb committed && negb (valid_code_nethttp c) | _ => false end
       then ([], true)
       else let (e, p) := direct_eff (committed || is_commit a) r in (a :: e, p)
   end.
@@ -203,7 +204,7 @@ Definition cobs_eqb (a b : cobs) : bool :=
 (* what a request that was inside shows when its (empty) handler returns / panics *)
 Definition leave_obs (inner panics : bool) : cobs :=
   if inner
-  then match handler_response true [] (if panics then [PanicA] else []) with
+  then match handler_response true [] (if panics then [PanicA PVString] else []) with
        | Some r => CLeft (r_status r) false
        | None => CBad
        end
@@ -287,16 +288,18 @@ Definition rforced (crash : bool) (h : hres) (f : rfire) : list rstate :=
   end.
 
 Definition model_ok_r (c : rcase) : bool :=
-  negb (or_hung c) &&
   if r_timeout c
-  then existsb (fun s => match rs_out s with Some (_, r) => rres_eqb r (or_res c) | None => false end)
-               (rforced (r_crash c) (r_h c) (r_fire c))
-  else rres_eqb (rpc_direct (r_crash c) (r_h c)) (or_res c).
+  then match rforced (r_crash c) (r_h c) (r_fire c) with
+       | [] => or_hung c     (* no select arm can be taken under this schedule: the call sits there until a deadline *)
+       | l => negb (or_hung c) &&
+              existsb (fun s => match rs_out s with Some (_, r) => rres_eqb r (or_res c) | None => false end) l
+       end
+  else negb (or_hung c) && rres_eqb (rpc_direct (r_crash c) (r_h c)) (or_res c).
 
 Definition handler_rres (crash : bool) (h : hres) : rres :=
   match h with
   | HReturn r c => RResult r c
-  | HPanics => if crash then RResult None codeInternal else RPropagatedPanic
+  | HPanics _ => if crash then RResult None codeInternal else RPropagatedPanic   (* whatever the value *)
   end.
 Definition deadline_rres (c : cause) : rres :=
   RResult None (match c with CTimeout => codeDeadlineExceeded | CCancel => codeCanceled end).
